@@ -104,6 +104,7 @@ def check_centre(x, y, endX, endY, radius, clockwise, res):
 
 class C16(Monitor):
     prop = "C16"
+    quick_cases = 200
     rule = ("real planArc driven directly: start in [-300,300]^2, radius log-uniform in [0.2,500], sweep in [1e-3, 2pi-1e-3] or "
             "exactly 2pi (end == start), both directions, mm and inch logical units; real computeArcCenterOffsets with R of both "
             "signs incl. R==0, start==end, |R| < chord/2; end-to-end: I/J arc from outside whose path is >= 0.6 units deep in a "
@@ -113,8 +114,6 @@ class C16(Monitor):
                    "zero-angle arcs (end on the ray centre->start, end != start) are outside the property's sweep domain"]
     BATCH = 40
 
-    def budget(self, tier):
-        return dict(workers=4, cases=150) if tier == "quick" else dict(workers=16, cases=0, secs=150, timeout=1200)
 
     def begin(self, tier):
         self.cores = {}
